@@ -12,6 +12,7 @@ META = {
     "level": "Decides the structural clauses: no arch reaches a request without having been checked against the repository's known arches — whatever its origin (written, '*' expansion, '^' copy, cc arches, all-arches candidates); suggestions never contain a prefix keyword; only-new drops exactly the arches already carried (stable arch when stabilizing, arch or ~arch when keywording); stabilization suggestions = stable on another version AND testing on this one; non-'=' or slotted specs are rejected before anything else when stabilizing; cc-arch and arch-filter narrowing are membership filters applied to every yielded line. Does NOT decide results on concrete repositories.",
     "note": "",
 }
+META["technique"] += "; " + 'generic pack G on the anchored files (optional-flag shift, closures outliving a loop iteration, single-pass iterables consumed twice, %-templates built from data, in-place writes to class-level / memoised objects, generators mutating what they yielded, memo keys that are projections)'
 MOD = "pkgcore.ebuild.keywording"
 PASS = {"list", "tuple", "sorted", "sort_keywords", "frozenset", "set"}
 
